@@ -79,6 +79,48 @@ def run(ctx):
         pn.discharge = orig
     pr.rule_acyclic(ctx, "R11.4", reach, "LefLibrary::open", ["lef21::"])
 
+    # ---- R11.6 panicking arithmetic of the decimal crate (its operators panic on overflow / division by zero; only the
+    # checked_* forms return None) applied to numbers that come from the input
+    ctx.rule("R11.6", "the reader applies rust_decimal's panicking operators (* + - / %) only to operands of bounded magnitude: one factor is a fractional part (|x| < 1) or both are constants; an input number of 28 digits must not reach them")
+    DEC_OP = re.compile(r"rust_decimal::arithmetic_impls::<impl std::ops::(Mul|Add|Sub|Div|Rem)\w* for rust_decimal::Decimal>::\w+$|<rust_decimal::Decimal as std::ops::(Mul|Add|Sub|Div|Rem)\w*>::\w+$|rust_decimal::Decimal::(powi|powu|powf|powd|sqrt|exp|ln)$")
+    n_dec = 0
+    for fid in sorted(reach):
+        f = F.fns[fid]
+        if not fid.startswith("lef21::") or not f.body:
+            continue
+        b = Body(f)
+        for bi, t in b.calls():
+            n = callee_name(t) or ""
+            m = DEC_OP.search(n)
+            if not m:
+                continue
+            n_dec += 1
+
+            def bounded(o, depth=0):
+                """constant, or a fractional part, or a conversion of a small integer constant"""
+                src = b.def_call(o)
+                if src is None:
+                    c = b.const_of(o) if hasattr(b, "const_of") else None
+                    if c is not None:
+                        return True
+                    rv = b.def_rvalue(o)
+                    if rv is not None and rv["k"] in ("use", "ref", "cast") and depth < 4:
+                        q = rv.get("o") or {"cp": rv["p"]}
+                        return bounded(q, depth + 1)
+                    return False
+                sn = callee_name(src) or ""
+                if re.search(r"Decimal::fract$", sn):
+                    return True
+                if re.search(r"::from$|::into$|Decimal::new$|Deref>?::deref$|::clone$", sn) and src["args"] and depth < 4:
+                    return all(bounded(a, depth + 1) for a in src["args"])
+                return False
+            key = "%s/%s" % (f.short, n.split("::")[-1])
+            if len(t["args"]) >= 2 and all(bounded(a) for a in t["args"][:2]):
+                ctx.ok("R11.6", key + "@%d" % bi, "both operands are fractional parts / constants")
+            else:
+                ctx.violation("R11.6", key, "%s applies Decimal::%s to a number read from the input without a bound: rust_decimal's operators panic on overflow (a 28-digit value times ten), only checked_%s reports it" % (f.short, n.split("::")[-1], n.split("::")[-1]), b.site(bi), key)
+    ctx.floor("R11.6", "decimal_operator_sites", n_dec, 1)
+
     # ---- R11.3 loop progress
     ctx.rule("R11.3", "every loop of the lexer consumes a character per iteration; every loop of the parser consumes a token on every cycle and contains a step that fails at end of input")
     consuming_char = set()   # functions that (transitively, on the way) advance the character iterator
